@@ -70,7 +70,9 @@ theorem carryOne_next (s : St) (p : Path) (a : Addr) (m : Method) (f : Bool) :
   unfold St.carryOne
   split
   · rw [recheckFromCache_next]; rfl
-  · exact carryOneMove_next s p a m f
+  · split
+    · rw [recheckFromCache_next]; rfl
+    · exact carryOneMove_next s p a m f
 
 theorem carryOne_recGrow (s : St) (p : Path) (a : Addr) (m : Method) (f : Bool) : RecGrow s (s.carryOne p a m f).1 :=
   recGrow_of_eq (carryOne_recs s p a m f) (carryOne_next s p a m f)
